@@ -151,7 +151,16 @@ def run_property(prop, tier, seed):
     if unknown:
         violations = len(unknown)
         status = 1
-        D.violation(prop, {"property": prop, "reason": "the implementation's output violates the specification on these inputs "
+        minimized = None
+        try:
+            import shrink
+            for r, _ in unknown[:3]:
+                minimized = shrink.shrink(prop, r)
+                if minimized:
+                    break
+        except Exception as e:          # shrinking is a convenience; it never decides anything
+            notes.append(f"shrinking failed: {e}")
+        D.violation(prop, {"property": prop, "minimized": minimized, "reason": "the implementation's output violates the specification on these inputs "
                            "(spec_ok evaluated in Coq on the observed output; independent of the model)",
                            "tie_broken": tie_broken, "cases": [r for r, _ in unknown[:10]]})
     elif tie_broken:
